@@ -215,6 +215,7 @@ class Crazyflie():
         if (self.link is not None):
             self.link.close()
         self.link = None
+        self._cancel_answer_timers()
         if (self.state == State.INITIALIZED):
             self.connection_failed.call(self.link_uri, errmsg)
         elif (self.state == State.CONNECTED or
@@ -244,6 +245,7 @@ class Crazyflie():
         self.connection_requested.call(link_uri)
         self.state = State.INITIALIZED
         self.link_uri = link_uri
+        self._cancel_answer_timers()
         try:
             self.link = cflib.crtp.get_link_driver(
                 link_uri, self.link_statistics.radio_link_statistics_callback, self._link_error_cb)
@@ -284,7 +286,7 @@ class Crazyflie():
         if (self.link is not None):
             self.link.close()
             self.link = None
-        self._answer_patterns = {}
+        self._cancel_answer_timers()
         self.disconnected.call(self.link_uri)
         self.state = State.DISCONNECTED
 
@@ -309,11 +311,17 @@ class Crazyflie():
         """Remove the callback cb on port and channel"""
         self.incoming.remove_header_callback(cb, port, channel, port_mask, channel_mask)
 
-    def _no_answer_do_retry(self, pk, pattern):
+    def _cancel_answer_timers(self):
+        """Stop all retry timers and forget the answers we were waiting for"""
+        for timer in list(self._answer_patterns.values()):
+            timer.cancel()
+        self._answer_patterns = {}
+
+    def _no_answer_do_retry(self, pk, pattern, timer, timeout):
         """Resend packets that we have not gotten answers to"""
         logger.info('Resending for pattern %s', pattern)
-        # Set the timer to None before trying to send again
-        self.send_packet(pk, expected_reply=pattern, resend=True)
+        self.send_packet(pk, expected_reply=pattern, resend=True,
+                         timeout=timeout, retry_timer=timer)
 
     def _check_for_answers(self, pk):
         """
@@ -336,7 +344,8 @@ class Crazyflie():
             self._answer_patterns[longest_match].cancel()
             del self._answer_patterns[longest_match]
 
-    def send_packet(self, pk, expected_reply=(), resend=False, timeout=0.2):
+    def send_packet(self, pk, expected_reply=(), resend=False, timeout=0.2,
+                    retry_timer=None):
         """
         Send a packet through the link interface.
 
@@ -350,34 +359,38 @@ class Crazyflie():
             raise Exception('Data part of packet is too large')
 
         self._send_lock.acquire()
-        if self.link is not None:
+        # A link error can set self.link to None (and a reconnect can replace
+        # it) at any time, look at it only once
+        link = self.link
+        if resend and \
+                self._answer_patterns.get(expected_reply) is not retry_timer:
+            # The timer that asks for the resend is not waiting for the answer
+            # any more: the answer arrived, or the link was closed, after it
+            # fired
+            logger.debug('Resend requested, but %s is no longer expected',
+                         expected_reply)
+        elif link is not None:
             if len(expected_reply) > 0 and not resend and \
-                    self.link.needs_resending:
+                    link.needs_resending:
                 pattern = (pk.header,) + expected_reply
                 logger.debug(
                     'Sending packet and expecting the %s pattern back',
                     pattern)
                 new_timer = Timer(timeout,
-                                  lambda: self._no_answer_do_retry(pk,
-                                                                   pattern))
+                                  lambda: self._no_answer_do_retry(
+                                      pk, pattern, new_timer, timeout))
                 self._answer_patterns[pattern] = new_timer
                 new_timer.start()
             elif resend:
-                # Check if we have gotten an answer, if not try again
+                # We have not gotten an answer, try again
                 pattern = expected_reply
-                if pattern in self._answer_patterns:
-                    logger.debug('We want to resend and the pattern is there')
-                    if self._answer_patterns[pattern]:
-                        new_timer = Timer(timeout,
-                                          lambda:
-                                          self._no_answer_do_retry(
-                                              pk, pattern))
-                        self._answer_patterns[pattern] = new_timer
-                        new_timer.start()
-                else:
-                    logger.debug('Resend requested, but no pattern found: %s',
-                                 self._answer_patterns)
-            self.link.send_packet(pk)
+                logger.debug('We want to resend and the pattern is there')
+                new_timer = Timer(timeout,
+                                  lambda: self._no_answer_do_retry(
+                                      pk, pattern, new_timer, timeout))
+                self._answer_patterns[pattern] = new_timer
+                new_timer.start()
+            link.send_packet(pk)
             self.packet_sent.call(pk)
         self._send_lock.release()
 
